@@ -38,6 +38,9 @@ type cluster struct {
 	lifeErr   []error
 	lifeAlive bool
 	seq       int // global event sequence (history timestamps)
+	execHeld  bool
+	// OnRecord observes the example store's record accesses (task name, point, key).
+	OnRecord func(task string, point string, key string)
 }
 
 type lifeOp struct {
@@ -52,6 +55,23 @@ func newCluster(tape *sim.Tape, o *Outcome) *cluster {
 	cl := &cluster{S: s, N: sim.NewNet(s), O: o, T: tape, YieldOn: map[string]bool{}}
 	redis.VerifListen = cl.N.Listen
 	redis.VerifYield = func(point string, obj any) {
+		// the command mutex spans handler park points: the scheduler models it, so that no
+		// goroutine ever blocks on the real mutex while its holder is parked
+		switch point {
+		case "exec.lock":
+			if s.Serial {
+				s.Park(taskNameFor(obj), "yield:exec.lock", obj, func() bool { return !cl.execHeld })
+				if cl.execHeld {
+					s.Count("exec_lock_acquired_while_held") // only during teardown
+				}
+				cl.execHeld = true
+				s.Count("exec_lock_acquisitions")
+			}
+			return
+		case "exec.unlock":
+			cl.execHeld = false
+			return
+		}
 		if !cl.YieldOn[point] {
 			return
 		}
@@ -63,6 +83,9 @@ func newCluster(tape *sim.Tape, o *Outcome) *cluster {
 			return
 		}
 		s.Count("yield_" + point)
+		if cl.OnRecord != nil {
+			cl.OnRecord(s.CurrentTask(), point, key)
+		}
 		s.Park("?", "yield:"+point, nil, nil)
 	}
 	return cl
